@@ -264,7 +264,7 @@ func recordLib(args []string) error {
 	case "boundary", "large":
 		for i, n := range sz {
 			r.scenarioSized(i, n, *scen == "boundary", kinds[i%3])
-			if n > 1001 && kinds[i%3] != "big" {
+			if n > 1001 && n <= 5000 && kinds[i%3] != "big" {
 				// beyond the 1000-row / 1000-value batches every size is also built by the big writer
 				r.scenarioSized(i+1, n, *scen == "boundary" && n <= 2500, "big")
 			}
